@@ -98,6 +98,8 @@ def run(prop, tier, seed):
             # alphabet at every position) of this run's seed vectors, checks on it that the operational parser machine refines the
             # grammar, and emits every string for the replayer
             seeds = [corpus.random_vector(rnd, ver, p_opt=rnd.choice([0.0, 0.15]))[3] for ver in "234" for _ in range(1 if not big else 6)]
+            # ... and of the grammar's own tokens (short strings without a separator: a prefix alone, with its slash, one field, prefix + field)
+            seeds += ["", "CVSS:3.1", "CVSS:3.0", "CVSS:4.0", "CVSS:3.1/", "CVSS:4.0/", "AV:N", "CVSS:3.1/AV:N", "CVSS:4.0/AV:N", "AV:N/AC:L"]
             sf = os.path.join(work, "seeds.json")
             json.dump(seeds, open(sf, "w"))
             r = tlc_or_die("MC_Parser", env={"SEEDS_FILE": sf}, workers=8, timeout=3600)
@@ -116,7 +118,7 @@ def run(prop, tier, seed):
                     items += [{"op": "construct", "ver": ver, "s": esc(s), "json": False} for ver in "234"]
             ev = record_events(items, work)
             for e in ev:                      # keep the trace small: C04 needs the outcome class only
-                if e["out"]["cls"] == "ok":
+                if e["out"]["cls"] in ("ok", "accessor-raised"):          # accepted is accepted: what the accessors then do is not C04's question
                     e["out"] = {"cls": "ok", "minor": e["out"]["minor"]}
             judge(c, prop, ev, work, "construct")
             # beyond the property: exact error messages predicted by the machine (NOTE lines of the same TLC run; never violations)
@@ -272,7 +274,7 @@ def run(prop, tier, seed):
             c.rule = ("valid vectors: every metric x every value x every group-presence shape in random field order, plus seeded random "
                       "spellings; one construct event each with every emitted string re-offered to the library's own constructor"
                       + ("; pools of ~17 objects (twins in other spellings, ND-spelled, one metric changed, 3.0/3.1, other class) with the full ==/!=/hash/set matrix" if prop == "C07" else ""))
-            c.samples = [{"s": e["s"], "clean": e["out"]["clean"], "rh": e["out"]["rh"], "tv": e["out"]["tv"], "ev": e["out"]["ev"]} for e in ev[::max(1, len(ev) // 5)]][:6]
+            c.samples = [{"s": e["s"], "clean": e["out"]["clean"], "rh": e["out"]["rh"], "tv": e["out"]["tv"], "ev": e["out"]["ev"]} for e in [x for x in ev if x["out"]["cls"] == "ok"][::max(1, len(ev) // 5)]][:6]
         elif prop == "C12":
             vs = valid_corpus(rnd, 800 if not big else 15000)
             items = [{"op": "construct", "ver": v[0], "s": esc(v[3]), "json": False} for v in vs]
